@@ -10,6 +10,7 @@ import (
 	"github.com/internetarchive/Zeno/internal/pkg/config"
 	"github.com/internetarchive/Zeno/pkg/models"
 	"github.com/internetarchive/Zeno/verifharness/fakehq"
+	"github.com/internetarchive/Zeno/verifharness/origin"
 	"github.com/internetarchive/Zeno/verifharness/vh"
 )
 
@@ -18,12 +19,20 @@ import (
 // fake crawl HQ, which fails add / delete / get calls by a seeded script (5xx, connection reset,
 // timeout after or before applying).  Batches fill by size and by the 5 s ticker.
 //
-// usage: zeno-verif c15 <scratch-dir> <trace> <lq|hq> <hubs> <batch> <faults> <timeouts>
+// usage: zeno-verif c15 <scratch-dir> <trace> <lq|hq> <hubs> <batch> <faults> <timeouts> [workers delay-ms]
+//
+// With a delay the site is slow: finishes trickle in, the finish batches are flushed by the ticker, and every
+// first delete attempt fails - so seeds finish while an earlier, timer-flushed batch is being retried.
 func init() { scenarios["c15"] = c15 }
 
 func c15(args []string) error {
-	if len(args) != 7 {
-		return fmt.Errorf("usage: c15 <dir> <trace> <lq|hq> <hubs> <batch> <faults> <timeouts>")
+	if len(args) != 7 && len(args) != 9 {
+		return fmt.Errorf("usage: c15 <dir> <trace> <lq|hq> <hubs> <batch> <faults> <timeouts> [workers delay-ms]")
+	}
+	workers, delay := 2, 0
+	if len(args) == 9 {
+		fmt.Sscan(args[7], &workers)
+		fmt.Sscan(args[8], &delay)
 	}
 	mode := args[2]
 	var hubs, batch, nfaults, ntimeouts int
@@ -54,7 +63,7 @@ func c15(args []string) error {
 		defer hq.Close()
 	}
 	r0, err := NewRun(args[0], args[1], 3, func(c *config.Config) {
-		c.WorkersCount, c.MaxConcurrentAssets = 2, 2
+		c.WorkersCount, c.MaxConcurrentAssets = workers, 2
 		c.MaxRedirect, c.MaxRetry = 3, 1
 		c.HTTPTimeout = 5
 		c.MaxHops = 2
@@ -90,6 +99,7 @@ func c15(args []string) error {
 	}
 	r := vh.Rand(1500 + int64(hubs))
 	org := run.org
+	org.DelayAll = delay
 
 	// ---- the site
 	odd := []string{"/leaf/with space.html", "/leaf/q.html?b=2&a=1&a=0", "/leaf/UPPER.html", "/leaf/café.html", "/leaf/semi;colon.html", "/leaf/pct%41.html", "/leaf/plus+sign.html?x=a+b"}
@@ -166,6 +176,12 @@ func c15(args []string) error {
 				}
 				seq = append(seq[:at], append([]string{t}, seq[at:]...)...)
 			}
+			if delay > 0 && ep == "delete" {
+				seq = nil
+				for i := 0; i < 12; i++ {
+					seq = append(seq, kinds[r.Intn(3)], "ok")
+				}
+			}
 			hq.Faults(ep, seq...)
 			run.tr.Emit(map[string]any{"ev": "faults", "endpoint": ep, "seq": seq})
 		}
@@ -176,6 +192,27 @@ func c15(args []string) error {
 	}
 	run.tr.Emit(map[string]any{"ev": "c15.mode", "mode": mode, "batch": batch})
 	run.Start()
+	var feeding atomic.Bool
+	if mode == "hq" && delay > 0 {
+		// a steady trickle of plain pages: one finish every few hundred ms, for longer than several flush periods
+		feeding.Store(true)
+		org.Dynamic = func(h int, uri string, cnt int) *origin.Resp {
+			if strings.HasPrefix(uri, "/trickle/") {
+				p := htmlPage("t", nil, nil)
+				return &p
+			}
+			return nil
+		}
+		go func() {
+			defer feeding.Store(false)
+			for i := 0; i < 30; i++ {
+				u := org.URL(i%len(org.Hosts), fmt.Sprintf("/trickle/%d.html", i))
+				id := hq.Feed(u, "", "")
+				run.tr.Emit(map[string]any{"ev": "queued", "id": id, "u": u, "via": "", "hops": 0})
+				time.Sleep(700 * time.Millisecond)
+			}
+		}()
+	}
 
 	// ---- wait: drained (everything produced was delivered, queue empty, nothing tracked) or idle for 20 s
 	drained := false
@@ -190,11 +227,11 @@ func c15(args []string) error {
 			rows, err := run.Rows()
 			empty = err == nil && len(rows) == 0 && atomic.LoadInt64(&run.added) >= atomic.LoadInt64(&run.produced)
 		}
-		if empty && len(run.StateTable()) == 0 && idle > 1500*time.Millisecond {
+		if empty && !feeding.Load() && len(run.StateTable()) == 0 && idle > 1500*time.Millisecond {
 			drained = true
 			break
 		}
-		if idle > 20*time.Second {
+		if idle > 20*time.Second && !feeding.Load() {
 			break
 		}
 		time.Sleep(100 * time.Millisecond)
